@@ -498,4 +498,64 @@ def rule_listener_identity(ctx: Ctx):
         rep.ok("C17.carry", init.loc(), "the record of attached listeners tells them apart by identity", record=rec)
 
 
-RULES = [rule_carry, rule_excluded, rule_steps, rule_attach, rule_first_attachment, rule_no_snapshot, rule_restart_guard, rule_bound_triggers, rule_listener_identity]
+def rule_copy_hooks(ctx: Ctx, rule: str = "C17.carry"):
+    """C17.carry: an object tied to one machine (it holds a reference to it, like a BoundEvent) is never shared between
+    a machine and its clone: no class of the package whose instances reference a machine answers copy()/deepcopy() with
+    the object itself.  (The machine's own __getstate__/__setstate__ are C17.steps' business.)"""
+    rep = ctx.rep
+    smc = ctx.p.cls("StateMachine")
+    fam_sm = {smc.name} | {c.name for c in ctx.p.subclasses(smc)}
+    scanned = 0
+    for c in sorted(ctx.p.classes.values(), key=lambda c_: (c_.module.rel, c_.name)):
+        if c.name in fam_sm:
+            continue
+        scanned += 1
+        hooks = [(nm, c.method(nm)) for nm in ("__copy__", "__deepcopy__", "__reduce__", "__reduce_ex__") if c.method(nm) is not None]
+        if not hooks:
+            continue
+        fam = [c] + list(ctx.p.subclasses(c))
+        tied = []
+        for k in fam:
+            attrs = set(k.class_annots) | set(k.class_assigns)
+            for ms in k.methods.values():
+                for m in ms:
+                    for n in own_nodes(m.node):
+                        if isinstance(n, ast.Attribute) and isinstance(n.ctx, ast.Store) and isinstance(n.value, ast.Name):
+                            attrs.add(n.attr)
+            for a in sorted(attrs):
+                if ctx.r.attr_type(k.name, a) & fam_sm:
+                    tied.append(f"{k.name}.{a}")
+        for nm, m in hooks:
+            for p in ctx.paths(m, exc_edges="none"):
+                if p.kind != "return" or p.value is None:
+                    continue
+                v = expand(p.value, p.events)
+                same = isinstance(v, ast.Name) and v.id == m.params[0]
+                if same:
+                    rep.check(not tied, rule, m.loc(), f"{c.name}.{nm} hands out the object itself only when no instance of the class (or a subclass) "
+                              "is tied to a machine: otherwise the clone's object graph keeps driving the original machine", m.key,
+                              f"return {show(v)}", machine_references=sorted(set(tied)))
+                elif tied:
+                    raise AnalysisError(f"UNRECOGNISED-IDIOM {rule} at {m.loc()}: copy hook {c.name}.{nm} on a class tied to a machine "
+                                        f"({', '.join(sorted(set(tied))[:3])}) is not analysed")
+    rep.ok(rule, f"{smc.module.rel}:{smc.node.lineno}", "classes other than the machine scanned for copy hooks", classes=scanned)
+
+
+def rule_clone_inspects_its_own(ctx: Ctx):
+    """C17.attach: re-attaching on the clone inspects the clone's listeners: no memo in front of the inspection serves the
+    record of the original's (equal) listener."""
+    from ..wrappers import check_fresh
+    from .c07 import _resolution_pipeline
+
+    check_fresh(ctx, "C17.attach", _resolution_pipeline(ctx), "the clone's callbacks are bound to the clone's own listeners")
+
+
+def rule_no_hidden_state(ctx: Ctx):
+    """C17.excluded: what __getstate__ hands over is what the class stores by name - nothing tied to the original is slipped
+    into the instance's __dict__ under a computed key."""
+    from . import c16
+
+    c16.rule_no_hidden_instance_state(ctx, rule="C17.excluded")
+
+
+RULES = [rule_carry, rule_excluded, rule_steps, rule_attach, rule_first_attachment, rule_no_snapshot, rule_restart_guard, rule_bound_triggers, rule_listener_identity, rule_copy_hooks, rule_clone_inspects_its_own, rule_no_hidden_state]
